@@ -568,5 +568,8 @@ var c02Tamper = probe.Define("C02", "tamper", func(t *rapid.T) c02In {
 
 func TestC02(t *testing.T) {
 	c := probe.NewCtx(t, "C02")
+	if c.Shard == 0 {
+		endurance(c, "C02", "sizes-multiple-of-4096", c.N(48, 400))
+	}
 	c02Tamper.Run(c, t, c.N(100, 1000))
 }
